@@ -19,6 +19,10 @@ func genC01(c *Ctx, r *rng.R, i int) {
 		c01Corpus(c, i)
 		return
 	}
+	if i%11 == 6 {
+		c01Boundary(c, r)
+		return
+	}
 	// concrete operand tuples (wholly known, nulls where the operation accepts them)
 	num := func() cty.Value {
 		if r.Chance(60) {
@@ -249,6 +253,53 @@ func mixedPrecision(cargs, aargs []cty.Value) bool {
 		}
 	}
 	return len(precs) > 1
+}
+
+// c01Boundary: a known number that sits exactly on a bound of an unknown number's range, the two bounds
+// differing in inclusiveness: equality and inequality, either way round, at the top and inside an object,
+// may only be decided when the range really excludes the number.
+func c01Boundary(c *Ctx, r *rng.R) {
+	lo := int64(r.Intn(21) - 10)
+	hi := lo + 1 + int64(r.Intn(6))
+	loInc := r.Bool()
+	hiInc := !loInc
+	if r.Chance(20) {
+		hiInc = loInc
+	}
+	a := cty.UnknownVal(cty.Number).Refine().NotNull().
+		NumberRangeLowerBound(cty.NumberIntVal(lo), loInc).
+		NumberRangeUpperBound(cty.NumberIntVal(hi), hiInc).NewValue()
+	// the concrete number the unknown stands for: on an inclusive bound when there is one, else inside
+	var x cty.Value
+	switch {
+	case loInc && (!hiInc || r.Bool()):
+		x = cty.NumberIntVal(lo)
+	case hiInc:
+		x = cty.NumberIntVal(hi)
+	default:
+		x = cty.NumberFloatVal(float64(lo) + 0.5)
+	}
+	// the other operand: the same number (equal), or the excluded bound (unequal, and the range says so)
+	y := x
+	if r.Chance(35) {
+		if loInc {
+			y = cty.NumberIntVal(hi)
+		} else {
+			y = cty.NumberIntVal(lo)
+		}
+	}
+	wrap := func(v cty.Value) cty.Value { return v }
+	if r.Chance(35) {
+		wrap = func(v cty.Value) cty.Value {
+			return cty.ObjectVal(map[string]cty.Value{"n": v, "s": cty.StringVal("k")})
+		}
+	}
+	op := []string{"OEq", "ONe"}[r.Intn(2)]
+	if r.Bool() {
+		c01Pair(c, op, []cty.Value{wrap(y), wrap(x)}, []cty.Value{wrap(y), wrap(a)}, true)
+	} else {
+		c01Pair(c, op, []cty.Value{wrap(x), wrap(y)}, []cty.Value{wrap(a), wrap(y)}, true)
+	}
 }
 
 func c01Corpus(c *Ctx, i int) {
